@@ -17,6 +17,7 @@ Decided (guarded teardown):
   C07.4  the reaper's predicate requires an empty buffer; only the enumerated callers tear a work down.
 Not decided: that the last byte leaves the kernel; promptness beyond the flag discipline."""
 import ast
+import re
 from typing import Any, Dict, List, Optional, Tuple
 
 from ..cfg import cfg_of
@@ -144,18 +145,23 @@ def run(ch: Checker) -> None:
         rv = sym.value(last[1].value, last[0]) if last is not None and isinstance(last[1], ast.Return) and last[1].value is not None else None
         returns_true = isinstance(rv, ast.Constant) and rv.value is True
         sets_flag = [i for i, st in p.stmts() for chn, kind, node in attr_effects(st) if chn == 'self.must_flush_before_shutdown' and kind == 'store' and norm(node.value) == 'True']  # type: ignore[attr-defined]
-        asked = fd.get('r is True') is True or fd.get('r') is True or any(k.replace(' ', '') in ('risTrue', 'isinstance(r,bool)') and v is True for k, v in fd.items()) and fd.get('r is True') is not False
+        # what handle_data answered, by value (the local holding it may have any name): facts about `self.handle_data(...)`
+        hd = {k: v for k, v in fd.items() if k.startswith('self.handle_data(') or k.startswith('isinstance(self.handle_data(')}
+        hd_true = [v for k, v in hd.items() if k.startswith('self.handle_data(') and (k.endswith(') is True') or k.endswith(')'))]
+        asked_true = bool(hd_true) and hd_true[-1] is True
+        asked = asked_true or (any(v is True for v in hd.values()) and not (hd_true and hd_true[-1] is False))
+        eof = any(v is True and re.fullmatch(r'self\.work\.recv\(.*\) is None', k) for k, v in fd.items())
         in_handler = any(gr.nodes[nid].kind == 'handler' for nid, lab in p.steps)
         if sets_flag:
             seen_set += 1
             if fd.get(HASBUF) is not True:
                 bad1b = ('must_flush_before_shutdown is set on a path where pending output was not established', p.describe(20))
-        if returns_true and not in_handler and fd.get('data is None') is not True:
+        if returns_true and not in_handler and not eof:
             seen_td += 1
             if fd.get(HASBUF) is not False:
                 bad1b = ('teardown is signalled right after handle_data asked for it although the client buffer may hold the reply just queued '
                          '(no `not has_buffer()` on the path)', p.describe(20))
-        if fd.get('r is True') is True and fd.get(HASBUF) is True and not sets_flag:
+        if asked_true and fd.get(HASBUF) is True and not sets_flag:
             bad1b = ('handle_data asked for teardown with output pending but must_flush_before_shutdown is not set: the connection is never closed', p.describe(20))
     ch.check(bad1b is None and seen_set >= 1, 'C07.1b', hr, 'must_flush_before_shutdown = True', 'flag set exactly when output is pending (%d path(s))' % seen_set,
              bad1b[0] if bad1b else 'the flush-before-shutdown flag is never set', witness=bad1b[1] if bad1b else None)
